@@ -52,6 +52,21 @@ TABLE["C10"] = {
             "extraction, numf.ml, driver.",
     "technique": "Coq proof over R/C (Flocq floor lemmas, modular arithmetic, finite Fourier sums) + extracted-OCaml differential correspondence",
 }
+TABLE["C07"] = {
+    "text": "Coq theorems: factor by factor the reverse transmission/reflection coefficient IS the forward coefficient of the "
+            "reversed interface at the Snell image of the incidence angle (identical calls), hence reverse_transrefl(p) = "
+            "transrefl(reverse p) in both units for any interface kinds/modes and complex coefficients (any commutative, "
+            "associative multiplication; instantiated on complex pairs over R); reverse beamspread = beamspread of the reversed "
+            "path for any number of legs under Snell (rev_gamma = gamma of the reversed interface); attenuation invariant under "
+            "reversal. Tie: extracted model fed with ANALYTICALLY computed angles/legs of Snell-exact rays through tilted walls "
+            "(real arim Path/Interface/Material objects, 2..4 legs, every L/T word, beyond the L critical angle) vs "
+            "transmission_reflection_for_path / reverse_… / beamspread / reverse beamspread / material_attenuation_for_path; spec on "
+            "the implementation: reverse_*(p) == direct(p.reverse()) ray for ray in both units.",
+    "note": "The Snell hypothesis is discharged on analytically traced rays (arim's discrete tracing meets it only approximately). Absolute floor "
+            "2e-7 on O(1) coefficients: arim's polar angle acos(z/r) is ill-conditioned at near-normal incidence. Trusted: Coq kernel + Reals "
+            "axioms, extraction, numf.ml, driver.",
+    "technique": "Coq proof (list induction over interfaces, commutative-monoid product reversal, field identities over R) + extracted-OCaml differential correspondence",
+}
 NOT_APPLICABLE = {}
 TABLE["C15"] = {
     "text": "Coq theorems (axiom-free, list induction) about an executable model of arim's frame bookkeeping: fmc / hmc list every "
@@ -190,7 +205,9 @@ TABLE["C01"] = {
             "global result, for C13); solve_defined/solve_shapes; solve_optimal (times[i][j] <= the left-nested cost of EVERY valid "
             "index tuple, any number of legs, induction on legs, Bellman step by monotonicity only); solve_realised (the reported "
             "indices start at i, end at j, are in range and cost exactly times[i][j]); fastest_unique (realised+optimal pin the time "
-            "whatever the tie-breaking); solver_grouping (one solver on ANY list of paths = each path alone, same error behaviour; "
+            "whatever the tie-breaking); solve_optimal_any_choice / solve_realised_any_choice (the same two theorems for the solver run "
+            "with ANY argmin choice returning a minimiser; model_is_choice: the model is the instance 'first strict minimiser'); brute_spec / solve_is_brute (the executable brute-force spec is the minimum over all valid tuples and the solver's times "
+            "equal it); solver_grouping (one solver on ANY list of paths = each path alone, same error behaviour; "
             "invariant: every cache entry equals the stand-alone solution of its key); cost_reverse/solve_reverse/"
             "solve_reverse_transposed/rays_reverse_valid (associative-commutative add + symmetric distance: reversed path gives "
             "transposed times, Rays.reverse realises them), rays_reverse_involutive, path_reverse_involutive; discrete_between "
@@ -202,7 +219,8 @@ TABLE["C01"] = {
             "duplicates, clones, reversed duplicates, empty end sets, empty interior set -> ZeroDivisionError) against the model run by "
             "vm_compute on binary64 primitive floats: times bit-exact on dyadic-exact clouds (exactness of every leg is measured), "
             "1e-12 on random clouds (1e-5 float32); indices are NOT compared with the model's argmin but must satisfy solve_realised "
-            "(Coq function cost) on the implementation's own times. Spec predicates evaluated in numpy on every answer: brute force "
+            "(Coq function cost) on the implementation's own times, and the verified Coq function brute must equal them when the "
+            "search space has <= 400 tuples. Spec predicates evaluated in numpy on every answer: brute force "
             "over all tuples (prod sizes <= 1e5) == times, realised, index ranges/endpoints, reversed == transposed, "
             "Rays.reverse valid and involutive, grouped == alone bitwise, order/set independence, float32 run.",
     "note": "Trusted: Coq kernel (+ Reals axioms for the two real-number theorems only); harness generators and numpy spec predicates. "
@@ -210,7 +228,7 @@ TABLE["C01"] = {
             "1e-12 on random clouds, bit-exact on dyadic clouds). Not covered by theorems: memory layout, dtype casts, the thread pool "
             "(C13), gone_through_extreme_points, NaN/inf inputs (FermatPath asserts finite velocities). Snell is mechanised for one flat "
             "interface in 2-D only; for several interfaces the continuous problem enters discrete_between through an arbitrary lower "
-            "bound L. The theorems are about the model with strict `<`; any other tie-breaking is covered by fastest_unique together "
+            "bound L. Any other tie-breaking than strict `<` is covered by the *_any_choice theorems and fastest_unique together "
             "with the harness relation (a `<` -> `<=` rewrite of the kernel does not alarm).",
     "technique": "Coq proof by induction on the path (snoc structure) over an abstract ordered cost type + table calculus; state-machine "
                  "refinement for the caches; Coquelicot/Reals for Snell; vm_compute (PrimFloat) correspondence + numpy brute-force spec",
